@@ -84,6 +84,16 @@ def cases(ctx):
             for fid in (50, 80, 95):
                 if mine():
                     yield dict({"kind": "request", "type": "K", "number": number, "socket": 0, "remote": "bob", "fidelity": fid}, **extra)
+    # a random-basis set AND fixed rotations / a named basis given for the same side: every keyword reaches the stack as passed
+    for tp in ("M", "R"):
+        for extra in ({"random_basis_local": "XZ", "rotations_local": [1, 2, 3]}, {"random_basis_local": "NONE", "rotations_local": [8, 0, 31]},
+                      {"random_basis_local": "CHSH", "basis_local": "X"}, {"random_basis_remote": "XYZ", "rotations_remote": [3, 2, 1]},
+                      {"random_basis_remote": "NONE", "basis_remote": "MY"},
+                      {"random_basis_local": "XZ", "random_basis_remote": "XZ", "rotations_local": [1, 1, 1], "rotations_remote": [2, 2, 2]}):
+            if tp == "R" and any(k_.endswith("remote") for k_ in extra):
+                continue
+            if mine():
+                yield dict({"kind": "request", "type": tp, "number": rng.choice([1, 2]), "socket": 0, "remote": "bob"}, **extra)
     for tp in ("K", "M", "R"):
         for extra in ({}, {"rotations_local": [1, 2, 3]}, {"basis_local": "X"}, {"random_basis_local": "XZ"}, {"max_time": 5, "time_unit": "SECONDS"},
                       {"rotations_local": [8, 0, 31], "rotations_remote": [1, 1, 1]}):
